@@ -15,7 +15,11 @@ def gen_case(rng, i):
     ndt = int(rng.integers(1, 4))
     dts = [float(x) for x in rng.choice(pg.DTS, ndt, replace=False)]
     arrangement = [dts[int(rng.integers(0, ndt))] for _ in range(nrec)]
-    recs = [pg.gen_record(rng, n=int(rng.integers(16, 90)), dt=d, scale=float(10.0 ** rng.integers(-2, 3))) for d in arrangement]
+    # sensors of one list may be deployed at different angles (read(..., degrees_from_north=[...])): the single-azimuth and
+    # RotDpp families must resolve the orientation per record
+    mixed_deg = fam in ("saz", "rot") and rng.random() < 0.6
+    recs = [pg.gen_record(rng, n=int(rng.integers(16, 90)), dt=d, scale=float(10.0 ** rng.integers(-2, 3)),
+                          deg=(float(rng.choice([0.0, 10.0, 33.5, 90.0, 180.0, 271.25, 350.0])) if mixed_deg else 0.0)) for d in arrangement]
     max_n = max(len(r["vt"]) for r in recs)
     fft = dict(n=None)
     sm = pg.gen_smoothing(rng, max_n, arrangement, op=str(rng.choice([o for o in pg.OPS if o != "savitzky_and_golay"])))
@@ -23,6 +27,11 @@ def gen_case(rng, i):
         return None
     if rng.random() < 0.12:  # one centre frequency above the Nyquist frequency of the largest time step
         sm["center_frequencies_in_hz"].append(float(1 / (2 * max(arrangement)) * rng.uniform(1.0001, 1.5)))
+    order = rng.random()    # the centre frequencies are a user-supplied array: any order is legitimate
+    if order < 0.15:
+        sm["center_frequencies_in_hz"] = sm["center_frequencies_in_hz"][::-1]
+    elif order < 0.35:
+        sm["center_frequencies_in_hz"] = [sm["center_frequencies_in_hz"][j] for j in rng.permutation(len(sm["center_frequencies_in_hz"]))]
     u = rng.random()
     if u < 0.08:      # an all-zero vertical (dead channel): 0/0 or x/0 must be refused, never reported as a curve
         k = int(rng.integers(0, nrec)); recs[k]["vt"] = [0.0] * len(recs[k]["vt"])
@@ -46,9 +55,11 @@ def gen_nyquist_case(rng, i):
     fam = ["trad", "saz", "rot"][i % 3]
     d_small, d_big = sorted(float(x) for x in rng.choice(pg.DTS, 2, replace=False))
     arrangement = [d_big, d_small, d_small, d_big][: int(rng.integers(2, 5))]
-    recs = [pg.gen_record(rng, n=int(rng.integers(40, 90)), dt=d, scale=1.0) for d in arrangement]
+    recs = [pg.gen_record(rng, n=int(rng.integers(40, 90)), dt=d, scale=1.0, deg=float(rng.choice([0.0, 0.0, 25.0, 300.0]))) for d in arrangement]
     fny = 1 / (2 * d_big)
     fcs = sorted([float(fny * rng.uniform(0.3, 0.9)), float(fny * rng.uniform(0.5, 0.95)), float(fny * rng.uniform(1.0005, 1.08))])
+    if i % 2 == 1:   # the offending frequency is not the last one (descending or shuffled user array)
+        fcs = [fcs[j] for j in ([2, 1, 0] if i % 4 == 1 else [0, 2, 1])]
     sm = dict(operator="konno_and_ohmachi", bandwidth=float(rng.choice([8.0, 10.0, 12.0])), center_frequencies_in_hz=fcs)
     case = dict(family=fam, smoothing=sm, width=0.1, fft=dict(n=None), policy=pg.POLICIES[0], records=recs)
     if fam == "trad":
@@ -76,7 +87,8 @@ def expected_kept(case):
 def run(ctx):
     ctx.rule = ("cases = lists of 1-7 records with 1-3 distinct time steps in every arrangement x three dissimilar-dt policies x "
                 "{frequency-domain combination, single azimuth, RotDpp}; each compared with the model and with process([record_i]) alone at the same fixed "
-                "FFT length, with a permuted list and a sub-list; a centre frequency above Nyquist in ~12 % of the cases; non-trivial = >=2 records and "
+                "FFT length, with a permuted list and a sub-list; a centre frequency above Nyquist in ~12 % of the cases; centre frequencies descending / shuffled in 35 %; records of one list deployed at different "
+                "degrees_from_north in 60 % of the single-azimuth / RotDpp cases; non-trivial = >=2 records and "
                 ">=2 distinct time steps or a refused case; distinct by input hash")
     rng = np.random.default_rng(ctx.seed)
     n = ctx.budget(70, 900)
